@@ -29,7 +29,7 @@ PROPERTY = "C19"
 RUNS = {"quick": 6000, "thorough": 250000}
 RUN_WALL_CAP = 60.0
 REQUIRED_PROBES = {
-    "quick": ["switch_inside_generator", "adversary_write_between_events", "seed_zero_used", "list_dim_used", "triple_evaluated_3x", "unseeded_call", "pgm_checked", "measure_checked", "numpy_integer_seed"],
+    "quick": ["switch_inside_generator", "adversary_write_between_events", "seed_zero_used", "list_dim_used", "triple_evaluated_3x", "unseeded_call", "pgm_checked", "measure_checked", "numpy_integer_seed", "positional_seed"],
     "thorough": ["switch_inside_generator", "adversary_write_between_events", "seed_zero_used", "list_dim_used", "triple_evaluated_3x", "unseeded_call", "pgm_checked", "measure_checked", "popt_sdp_checked"],
 }
 COMPONENTS = {
@@ -45,7 +45,20 @@ RULE = (
 SHRINK_ORDER = ["config", "client", "adversary", "sched", "entropy"]
 
 SEED_POOL = [0, 1, 2, 42, 2**32 - 1, 123456789, 7, 2**32, 2**32 + 1, 2**63 + 5]
-SEED_FORMS = ["int", "int", "int", "np.int64", "np.uint64"]
+SEED_FORMS = ["int", "int", "int", "np.int64", "np.uint64", "pos"]
+# "pos": every argument, the seed last, passed positionally in the order of the pinned public signature; it
+# is the same call as the keyword form and is judged against the keyword form's reference value.
+POS_ORDER = {
+    "random_unitary": ["dim", "is_real"],
+    "random_density_matrix": ["dim", "is_real", "k_param", "distance_metric"],
+    "random_psd_operator": ["dim", "is_real"],
+    "random_orthonormal_basis": ["dim", "is_real"],
+    "random_state_vector": ["dim", "is_real", "k_param"],
+    "random_povm": ["dim", "num_inputs", "num_outputs"],
+    "random_circulant_gram_matrix": ["dim"],
+    "random_states": ["n", "d"],
+    "random_ginibre": ["dim_n", "dim_m"],
+}
 TOL = 1e-9
 
 
@@ -272,13 +285,15 @@ def call_gen(R, name, params, seed, form="int", live=None):
     else:
         params = copy.deepcopy(params)
     try:
+        if form == "pos" and seed is not None:
+            return ("ok", fn(*[params[k] for k in POS_ORDER[name]], seed))
         return ("ok", fn(**params, seed=as_seed(seed, form)))
     except Exception as e:  # library exception: recorded, judged by the oracle
         return ("exc", type(e).__name__, str(e)[:200])
 
 
 def triple_key(name, params, seed, form="int"):
-    return json.dumps([name, params, seed, form], sort_keys=True)
+    return json.dumps([name, params, seed, "int" if form == "pos" else form], sort_keys=True)
 
 
 def same(a, b):
@@ -340,7 +355,7 @@ def run(cs, tier, run_index):
             for op in ops:
                 for name, params, seed, form in expand_gen_calls(op):
                     if seed is not None:
-                        triples.setdefault(triple_key(name, params, seed, form), (name, params, seed, form))
+                        triples.setdefault(triple_key(name, params, seed, form), (name, params, seed, "int" if form == "pos" else form))
         ref = {}
         for key, (name, params, seed, form) in triples.items():
             # every reference in a pristine library: nothing an earlier reference call left behind is visible
@@ -411,7 +426,9 @@ def run(cs, tier, run_index):
                         continue
                     key = triple_key(name, params, seed, form)
                     counts[key] = counts.get(key, 0) + 1
-                    if form != "int":
+                    if form == "pos":
+                        res.probe("positional_seed")
+                    elif form != "int":
                         res.probe("numpy_integer_seed")
                     if seed == 0:
                         res.probe("seed_zero_used")
